@@ -141,9 +141,10 @@ Qed.
 Section Convert.
 Variable V : Type.
 Variables vzero vdef : V.
+Variable dd2_fixed : bool.
 Variable conv : fname -> nat -> list V -> list V -> list V.
 Notation vd := (vd V).
-Notation convertf := (convert V vzero vdef fixed conv).
+Notation convertf := (convert V vzero vdef fixed dd2_fixed conv).
 
 (* invalid new type, inconvertible pair or wrong input dimensions: failure, one error report,
    and the destination object is returned unchanged *)
@@ -204,13 +205,13 @@ Definition zin_history (a b c e : V) : list (mop V) :=
    MConv V false false 10; MOn V false (OResize V 0 2 2 1)].
 
 Lemma convert_zin_fresh_example a b c e :
-  let s := mrun V vzero vdef fixed conv (minit V vzero vdef) (zin_history a b c e) in
+  let s := mrun V vzero vdef fixed dd2_fixed conv (minit V vzero vdef) (zin_history a b c e) in
   dat V (fst s) 0 2 = vzero /\ dat V (fst s) 0 3 = vzero /\
   dat V (fst s) 0 0 = nth 0 (conv (FIN VS) 2 [a; b; c; e] [vdef; vdef]) vzero.
 Proof. cbv zeta. repeat split; reflexivity. Qed.
 
 Lemma convert_zin_fresh_refuted_as_found a b c e :
-  let s := mrun V vzero vdef as_found conv (minit V vzero vdef) (zin_history a b c e) in
+  let s := mrun V vzero vdef as_found dd2_fixed conv (minit V vzero vdef) (zin_history a b c e) in
   dat V (fst s) 0 2 = c /\ dat V (fst s) 0 3 = e.
 Proof. cbv zeta. split; reflexivity. Qed.
 
